@@ -148,12 +148,13 @@ PROPS = {
     ),
     "C04": dict(
         rules=[R("vm", "rule_frames"), R("vm", "rule_catch_restore"), R("iters", "rule_iter_err"), R("values", "rule_replace_atomic"), R("compiler", "rule_try_exit"), R("vm", "rule_err_kind"), R("vm", "rule_err_swallow"),
-               R("compiler", "rule_catch_last")],
+               R("compiler", "rule_catch_last"), R("vm", "rule_unwind_no_result"), R("errdiscard", "rule_err_discard"),
+               R("trycount", "rule_try_count")],
         clause="Every nested interpreter entry sets the execution barrier and pops its frame when the nested run fails "
                "(R-FRAMES); resuming at a catch handler restores the sequence/string builder stacks (R-CATCH-RESTORE); "
                "no iterator output that may carry an error is dropped on its way up through adaptors and consumers "
-               "(R-ITER-ERR). the multi-step replace-at-index of a map entry cannot be interrupted by an error exit (R-REPLACE-ATOMIC). break / continue emit TryEnd for the try blocks they leave, the only way a catch point is removed (R-TRY-EXIT). a thrown value travels as an Error, never as its rendering (R-ERR-KIND). a failed overloaded operator is never replaced by the fallback's outcome unless it threw koto.unimplemented (R-ERR-SWALLOW). a conditional last catch block rethrows what it does not accept (R-CATCH-LAST). Not decided: finally on every path, handler scoping across break/continue/return "
-               "(emitted control flow), variable state after a catch.",
+               "(R-ITER-ERR). the multi-step replace-at-index of a map entry cannot be interrupted by an error exit (R-REPLACE-ATOMIC). break / continue emit TryEnd for the try blocks they leave, the only way a catch point is removed (R-TRY-EXIT). a thrown value travels as an Error, never as its rendering (R-ERR-KIND). a failed overloaded operator is never replaced by the fallback's outcome unless it threw koto.unimplemented (R-ERR-SWALLOW). a conditional last catch block rethrows what it does not accept (R-CATCH-LAST). a frame discarded by the unwinder delivers no result to the surviving frame, so `v = f()` leaves v as it was when f throws (R-UNWIND-NO-RESULT). the error of a re-entrant call is never reduced to its discriminant and replaced (R-ERR-DISCARD). the compiler's active-try-block count, from which break / continue emit TryEnd, mirrors the registered catch points at every recursive compile call (R-TRY-COUNT). Not decided: finally on every path, handler scoping across break/continue/return "
+               "(emitted control flow), variable state after a catch beyond the result register of the abandoned call.",
         technique="MIR path rules (sibling protocol at nested entries, must-pass-through) + linear-value evidence rule",
     ),
     "C06": dict(
@@ -206,7 +207,8 @@ PROPS = {
         rules=[R("enc", "rule_enc"), R("enc", "rule_handlers"), R("enc", "rule_enc_flags"),
                R("placeholder", "rule_placeholder"), R("compiler", "rule_jump_checked"), R("compiler", "rule_det"),
                R("narrow", "rule_narrow"), R("compiler", "rule_builder_bal"),
-               R("compiler", "rule_func_skip"), R("compiler", "rule_frame_return"), R("enc", "rule_varint")],
+               R("compiler", "rule_func_skip"), R("compiler", "rule_frame_return"), R("enc", "rule_varint"),
+               R("trycount", "rule_try_count")],
         clause="Writer/reader layout agreement for every (emission site, opcode) pair (R-ENC), including the StringPush flags "
                "byte (R-ENC-FLAGS); every opcode and instruction has a consumer (R-HANDLERS); every jump placeholder is "
                "patched (R-PLACEHOLDER); jump distances are range-checked, never truncated (R-JUMP-CHECKED); no "
@@ -216,7 +218,7 @@ PROPS = {
                "decodes a signed byte (R-NARROW); per Compiler method, emitted SequenceStart/StringStart/TryStart are "
                "closed by the emitted SequenceTo*/StringFinish/TryEnd on every non-error path (R-BUILDER-BAL); a nested function's "
                "body is always preceded by a Function op or a Jump over it (R-FUNC-SKIP) and every frame ends in a Return "
-               "unless its own last expression is a `return` (R-FRAME-RETURN). var-int bytes are masked with 0x7f by the reader as the writer assumes (R-VARINT). Not decided: "
+               "unless its own last expression is a `return` (R-FRAME-RETURN). var-int bytes are masked with 0x7f by the reader as the writer assumes (R-VARINT). try blocks are counted for break / continue exactly while their catch point is registered (R-TRY-COUNT: no TryEnd too many or too few on a loop exit). Not decided: "
                "register/constant indices in range for all programs, balance across methods (nested constructs rely on "
                "each method being balanced).",
         technique="writer/reader grammar extraction from MIR (macro-provenance of decoder reads, array types and emission "
@@ -234,10 +236,10 @@ PROPS = {
         technique="MIR path rules (pairing on all exits) over a rustc_private fact dump",
     ),
     "C08": dict(
-        rules=[R("vm", "rule_timeout_poll"), R("vm", "rule_timeout_nocatch"), R("vm", "rule_unwind_all"), R("vm", "rule_err_kind"), R("vm", "rule_err_swallow")],
+        rules=[R("vm", "rule_timeout_poll"), R("vm", "rule_timeout_nocatch"), R("vm", "rule_unwind_all"), R("vm", "rule_err_kind"), R("vm", "rule_err_swallow"), R("errdiscard", "rule_err_discard")],
         clause="The deadline poll dominates every instruction dispatch in the interpreter loop (R-TIMEOUT-POLL) and a "
                "timeout is never offered to a catch handler, including timeouts returned by nested interpreter entries "
-               "(R-TIMEOUT-NOCATCH). a timeout leaves the interpreter loop through the unwinder like every other error (R-UNWIND-ALL). errors keep their kind when they are passed on: no Error is rendered to text and re-wrapped (R-ERR-KIND). after a nested entry has failed only a thrown koto.unimplemented can lead on to a fallback, every other error is returned (R-ERR-SWALLOW). Not decided: time bounds/slack, adaptive poll interval, native loops.",
+               "(R-TIMEOUT-NOCATCH). a timeout leaves the interpreter loop through the unwinder like every other error (R-UNWIND-ALL). errors keep their kind when they are passed on: no Error is rendered to text and re-wrapped (R-ERR-KIND). after a nested entry has failed only a thrown koto.unimplemented can lead on to a fallback, every other error is returned (R-ERR-SWALLOW). no error of a re-entrant call is replaced by an error of the caller's own, which would make a timeout catchable (R-ERR-DISCARD). Not decided: time bounds/slack, adaptive poll interval, native loops.",
         technique="MIR dominance / must-pass-through and constant-argument analysis",
     ),
     "C18": dict(
